@@ -1455,13 +1455,13 @@ def correspondence(ctx):
     # three times; afterwards the references are what the caller handed in
     rsc = ref_scenario(rng, idx, 0, ctx.n(6, 16))
     rinst = [rsc.rand_instant(rng) for _ in range(ctx.n(3, 10))]
-    for rnd in range(ctx.n(1, 3)):
+    for rnd in range(ctx.n(1, 2)):
         order = list(MODES)
         rng.shuffle(order)
-        for mode in order[:ctx.n(3, 5)]:
+        for mode in order[:ctx.n(3, 4)]:
             set_eop(mode)
-            for d, s_ in rng.sample(rinst, ctx.n(2, 6)):
-                visits.append(Visit(out, rng, rsc, mode, "UTC", d, s_, s_, Date(d, s_), 0, ctx.n(8, 14), "attached-to-reference", twice=True))
+            for d, s_ in rng.sample(rinst, ctx.n(2, 4)):
+                visits.append(Visit(out, rng, rsc, mode, "UTC", d, s_, s_, Date(d, s_), 0, ctx.n(8, 10), "attached-to-reference", twice=True))
     # A4. the same NAMES registered again with another specification (other station coordinates, reference orbits, offsets), then the
     # same instants under the same configurations as before: a conversion follows what the name means NOW
     old = scs[0]
